@@ -162,6 +162,9 @@ class ExecutionContext:
                         second = [second]
                     combined = first + second
                     result = [combined[i] for i in indices]
+                    # Selecting a single component yields a scalar
+                    if instruction.Type.IsScalar():
+                        result = result[0]
                     localScope[ref] = result
                 case LinearIR.OpCode.STORE_ARRAY:
                     ref = instruction.Reference
